@@ -93,4 +93,13 @@ for n in ["4294967295", "4294967296", "00004294967296", "00004294967295", "42949
 for n in ["-4294967295", "-4294967296", "-00004294967296", "-00004294967295", "-1"]:
     for body in ["PEEK[%s..]", "PEEK[..%s]", "PEEK[%s..1]", "PEEK[1..%s]", "PEEK[%s..%s]" % ("%s", n), "PEEK[4294967296..%s]", "PEEK[%s..4294967296]", "b{%s}"]:
         E(R(body % n))
+
+# --- runs of infix operators (parse_infix_expression collects a run in a loop)
+for body in ["a" + " ~ a" * 2999, "a" + " | a" * 2999, "a" + "~a" * 1500 + "|b" + "~c" * 1500, "| a" + " | b ~ c" * 1000,
+             "a ~ b | c ~ d | e", "a | b ~ c | d ~ e ~ f | g", "a ~ b ~ c | d | e ~ f", "| a ~ b | c", "| a | b", "|a~b~c", "a ~ b ~ }", "a ~ b ~", "a | b | ~ c",
+             "a | b | | c", "a ~ b | ~ c", "a ~ b ~ | c", "a | b ~", "a ~ (b | c ~ d) ~ e | f", "(a ~ b) ~ (c ~ d)", "(a | b) | (c | d)", "a ~ (b ~ c)", "a | (b | c)",
+             "&a ~ !b | &c ~ d", "a ~ &b ~ c", "a | !b | c", "!a | b ~ !c", "&(a ~ b) ~ c", "#t = a ~ #u = b | #v = c", "a? ~ b* | c+ ~ d{2}", "a ~ b? | c",
+             "a ~ PUSH(b | c ~ d) ~ e", "PUSH(a ~ b) | PUSH(c | d)", "a ~ b ~ c ~ d ~ e | f | g | h ~ i ~ j", "a ~ b | c | d ~ e | f ~ g ~ h | i",
+             "a" + " ~ a" * 500 + " ~ }", "a" + " | a" * 500 + " | ~ c", "a" + " | a ~ a" * 700 + " |", "(" * 40 + "a ~ b | c" + ")" * 40 + " ~ d | e"]:
+    E(R(body))
 EDGES[:] = list(dict.fromkeys(EDGES))
